@@ -15,6 +15,8 @@ def main():
         run([gopt, "families", "-out", famdir, "-tier", tier], env=GOENV)
         for f in sorted(os.listdir(famdir)):
             fam = f[:-7]
+            if fam in parser_checks.NOSPEC_FAMILIES:
+                continue
             if only and fam not in only:
                 continue
             t = time.time()
